@@ -153,7 +153,8 @@ type VC struct {
 	nonNilGlobs []string
 	ldCache     map[string][]string
 	atCallSeen  map[string]int
-	atInstr     ssa.Instruction // the call an at-call assertion is being evaluated at
+	coverSeen   map[string]bool // reachable[label] clauses already attached to a statement
+	atInstr    ssa.Instruction // the call an at-call assertion is being evaluated at
 	sumFns      map[string]string // (lower bound | body term) -> sum function symbol
 	ldDefs      map[string]string // ld_N -> the load term it names
 	closureArgs map[ssa.Value]closureRef
@@ -163,6 +164,7 @@ type VC struct {
 	factGuard   string // path condition under which facts derived during a contract evaluation hold
 	callSite    ssa.Instruction // for an inlined callee: the call it is inlined at
 	freshCalls  map[ssa.Instruction]freshCall // contracted calls that return freshly allocated, unshared objects
+	inlineArgTerms map[int][]string        // symbolic arguments for the next inline() (sortspec.go)
 }
 
 // freshCall: a call by contract whose callee may write ghost state only (so it cannot have stored
